@@ -16,11 +16,17 @@ PROPS = {
     },
     "C01": {
         "corr_filters": ["::cdf", "::min", "::max"],
+        "hand_suites": ["empirical"],
+        "also_search": [("C15", "Empirical")],
+        "also_props": ["C10/StudentsT", "C15/Observations"],
         "not_covered": [DIST_NOTE, SF_NOTE, "range/monotonicity of the incomplete gamma/beta/erf algorithms in floating point"],
         "assumptions": ["Real-number semantics for theorems; IEEE semantics only through the bit-level correspondence"],
     },
     "C02": {
         "corr_filters": ["::sf", "::cdf"],
+        "hand_suites": ["empirical"],
+        "also_search": [("C15", "Empirical")],
+        "also_props": ["C10/StudentsT", "C15/Observations"],
         "not_covered": [DIST_NOTE, SF_NOTE, "agreement of the two independent continued fractions gamma_lr / gamma_ur in floating point"],
         "assumptions": ["Real-number semantics for theorems; IEEE semantics only through the bit-level correspondence"],
     },
@@ -37,6 +43,7 @@ PROPS = {
     },
     "C05": {
         "corr_filters": ["::inverse_cdf", "::cdf", "crate::distribution::internal"],
+        "also_props": ["C10/StudentsT", "C10/LocScaleNormalCauchy", "C10/LocScaleLaplaceGumbelLevy", "C10/LocScaleUniformTriangular"],
         "hand_suites": ["inv_beta_reg"],
         "not_covered": [DIST_NOTE, SF_NOTE, "convergence/accuracy of the iterative inverses (Gamma Newton steps, inv_beta_reg AS 109): pin + search only"],
         "assumptions": [],
